@@ -128,7 +128,9 @@ func c30sCheckStore(what string, s types.Store, m *OMap, op c30sOp) error {
 	return nil
 }
 
-func c30sExec(ctx *vk.Ctx, c c30sCase) error {
+func c30sExec(ctx *vk.Ctx, c c30sCase) error { return c30ASCII(c30sExecRaw(ctx, c)) }
+
+func c30sExecRaw(ctx *vk.Ctx, c c30sCase) error {
 	var db dbm.DB = memdb.NewMemDB()
 	opts := types.StoreOptions{PruningOptions: types.PruningOptions{KeepRecent: c.KeepRecent, KeepEvery: c.KeepEvery}}
 	open := func() (*storeiavl.Store, error) {
